@@ -60,6 +60,8 @@ impl Code {
                     u64::MAX
                 }
             }
+            // the unary part must itself be a legal unary value (< 2^64 - 1)
+            Code::Rice(0) | Code::Golomb(1) => u64::MAX - 1,
             Code::Rice(_) | Code::Golomb(_) => u64::MAX,
             Code::MinBin(u) => u - 1,
             Code::VByteBe | Code::VByteLe => u64::MAX,
